@@ -34,14 +34,15 @@ Is(x, tag) == x.j = tag
 
 (* decimal keys of the children / values maps: the harness passes them as tagged [key text, int] *)
 \* An object key is logged as the string itself; the registry needs its integer value, which the
-\* harness supplies next to it: object members are <<key, value, keyInt>> where keyInt is the
-\* integer the key spells in plain decimal, or -1.
+\* harness supplies next to it: object members are <<key, value, keyNum, isNum>> where isNum says
+\* that the key spells an integer in plain decimal and keyNum is that integer (an opaque token
+\* "BIG:<digits>" beyond TLC's range, only inside value maps).
 Member(o, i) == o.v[i]
 
 EmptyFn == [x \in {} |-> 0]
 
 ValuesOf(o) ==   \* {"<int>": "<str>", ...}
-    IF ~IsObj(o) \/ ~UniqueKeys(o) \/ \E i \in 1..Len(o.v) : (o.v[i][3] = -1 \/ ~Is(o.v[i][2], "str")) THEN Gray
+    IF ~IsObj(o) \/ ~UniqueKeys(o) \/ \E i \in 1..Len(o.v) : (~o.v[i][4] \/ ~Is(o.v[i][2], "str")) THEN Gray
     ELSE [ok |-> TRUE, f |-> [k \in {o.v[i][3] : i \in 1..Len(o.v)} |-> (CHOOSE pr \in {o.v[i] : i \in 1..Len(o.v)} : pr[3] = k)[2].v]]
 
 ChildOf(o, idKey, typeKey) ==
@@ -55,6 +56,7 @@ ChildrenOf(o, idKey, typeKey) ==
     IF ~IsObj(o) \/ ~UniqueKeys(o) THEN Gray
     ELSE LET cs == [i \in 1..Len(o.v) |-> ChildOf(o.v[i][2], idKey, typeKey)] IN
          IF \E i \in 1..Len(cs) : ~cs[i].ok THEN Gray
+         ELSE IF \E i \in 1..Len(cs) : ~o.v[i][4] \/ o.v[i][3] # cs[i].id THEN Gray          \* member key must spell the child id
          ELSE IF \E i, k \in 1..Len(cs) : i # k /\ cs[i].id = cs[k].id THEN Gray
          ELSE [ok |-> TRUE, f |-> [c \in {cs[i].id : i \in 1..Len(cs)} |-> (CHOOSE x \in {cs[i] : i \in 1..Len(cs)} : x.id = c).child]]
 
@@ -101,6 +103,7 @@ RegistryOf(file, NodeOf(_)) ==
     IF ~IsObj(file) \/ ~UniqueKeys(file) THEN Gray
     ELSE LET ns == [i \in 1..Len(file.v) |-> NodeOf(file.v[i][2])] IN
          IF \E i \in 1..Len(ns) : ~ns[i].ok THEN Gray
+         ELSE IF \E i \in 1..Len(ns) : ~file.v[i][4] \/ file.v[i][3] # ns[i].id THEN Gray       \* member key must spell the node id
          ELSE IF \E i, k \in 1..Len(ns) : i # k /\ ns[i].id = ns[k].id THEN Gray
          ELSE [ok |-> TRUE, reg |-> [n \in {ns[i].id : i \in 1..Len(ns)} |-> (CHOOSE x \in {ns[i] : i \in 1..Len(ns)} : x.id = n).node]]
 
